@@ -222,13 +222,18 @@ let class_of e q route toks =
 
 let spec input obs =
   match parse input with
-  | Unrouted -> if obs = "gin-3xx-4xx eff=none" then "OK" else "FAIL unrouted.unexpected-answer " ^ obs
+  | Unrouted ->
+    if obs = "gin-3xx-4xx eff=none" then "OK"
+    else if after "PANIC-ESCAPED" obs <> None then "FAIL unrouted.server-panicked " ^ obs   (* a panic came out of Engine.ServeHTTP *)
+    else if after "CRASH" obs <> None then "FAIL unrouted.server-died " ^ obs
+    else "FAIL unrouted.unexpected-answer " ^ obs
   | ErrCode _ -> "OK"   (* the error table is compared with the model only; the property speaks about requests *)
   | Req (e, q, route, toks) ->
     let cls = match route with
       | "accget" -> Printf.sprintf "accget[auth=%s]" (Stdlib.List.hd (words input))
       | _ -> class_of e q route toks in
     (match parse_obs obs with
+     | None when after "PANIC-ESCAPED" obs <> None -> Printf.sprintf "FAIL %s.server-panicked %s" cls obs   (* a panic came out of Engine.ServeHTTP: over a socket the client gets no answer at all *)
      | None when after "CRASH" obs <> None -> Printf.sprintf "FAIL %s.server-died %s" cls obs   (* the child process serving the request died *)
      | None -> Printf.sprintf "FAIL %s.no-response %s" cls obs
      | Some (_, true) -> Printf.sprintf "FAIL %s.body-not-json %s" cls obs
